@@ -207,3 +207,54 @@ def run_resolve_order(run, P, fname='handle_request'):
                               'HANDLE_WELLKNOWN_CORE flag set: a non-GET request to .well-known/core runs the application\'s create-handler instead of being answered 4.05', ctx.path())
         return None
     solve(f, Env(), on_event, None, keys, R, key_fn=lambda e: e.ts.get('wk'), on_branch=on_branch)
+
+
+def run_helper_verdict(run, P, callers=FUNCS):
+    """R-REPLY-ONCE (helpers that reply): coap_dispatch() / handle_request() ask small helpers "may I go on with this message?"
+    (`if (!helper(session, pdu)) goto cleanup`).  A helper that has itself sent a direct reply for the message (coap_send_rst_lkd,
+    coap_send_ack_lkd, coap_send_error_lkd, coap_send_internal of a PDU it made) must answer NO: every path of such a helper that passed an
+    emission returns 0.  Answering yes after having replied lets the request run on to its handler and be replied to a second time.
+    Helpers are computed: static int functions called in a condition by one of the callers, containing an emission."""
+    run.rule('R-REPLY-ONCE')
+    helpers = set()
+    for cn in callers:
+        if not P.has(cn):
+            continue
+        f = P.func(cn)
+        for b in f['blocks']:
+            c = (b.get('term') or {}).get('cond')
+            if c is None:
+                continue
+            for x in walk(c):
+                if isinstance(x, dict) and x.get('k') == 'call' and x.get('fn') and P.has(x['fn']):
+                    g = P.func(x['fn'])
+                    if g.get('static') and not g['ret'].get('p') and any(ev['e'].get('k') == 'call' and ev['e'].get('fn') in EMIT for bb, ev in P.events(g)):
+                        helpers.add(x['fn'])
+    n = 0
+    for hn in sorted(helpers):
+        g = P.func(hn)
+        n += 1
+        run.instance('R-REPLY-ONCE', '%s: answers 0 after having replied' % hn)
+
+        def is_rule_event(ev):
+            t = ev['e']
+            return (t.get('k') == 'call' and t.get('fn') in EMIT) or t.get('k') == 'ret'
+        keys, R = relevance(g, is_rule_event)
+
+        def on_event(ev, env, ctx, hn=hn):
+            t = ev['e']
+            if t.get('k') == 'call' and t.get('fn') in EMIT and ev.get('top', True) is not False and not env.ts.get('emit'):
+                e = apply_generic(ev, env, R).copy()
+                e.ts['emit'] = ev['loc']
+                return [e]
+            if t.get('k') == 'ret' and t.get('e') is not None and env.ts.get('emit'):
+                K = const_int(t['e'])
+                ok = K == 0
+                run.oblige('R-REPLY-ONCE', ok, '%s:no-after-reply' % hn)
+                if not ok:
+                    run.violation('R-REPLY-ONCE', hn, ev['loc'], 'helper-says-go-on-after-replying',
+                                  '%s() returns %s on a path on which it already sent a reply for this message (%s): the caller goes on, the request reaches its handler and '
+                                  'is answered a second time' % (hn, 'non-zero' if K is None else K, env.ts['emit'].rsplit('/', 1)[-1]), ctx.path())
+            return None
+        solve(g, Env(), on_event, None, keys, R, key_fn=lambda e: bool(e.ts.get('emit')))
+    run.require(n >= 1 or run.fixture_mode or run.cfg != 'base', 'R-REPLY-ONCE(helpers that reply): no replying helper called in a condition by %s found' % (callers,))
